@@ -27,7 +27,8 @@ Theorem c16_clears : forall cf s, g_in s = true ->
   let s' := step cf s EvInStop in
   g_video_known s' = false /\ g_patpmt s' = None /\
   prologue (g_rtmp_cache s') false = [] /\ prologue (g_rtmp_cache s') true = [] /\
-  prologue (g_flv_cache s') false = [] /\ gc_all (g_ts_cache s') = [] /\ gc_count (g_ts_cache s') = 0%nat.
+  prologue (g_flv_cache s') false = [] /\ gc_all (g_ts_cache s') = [] /\ gc_count (g_ts_cache s') = 0%nat /\
+  g_sdp s' = None.
 Proof. exact in_stop_clears. Qed.
 Print Assumptions c16_clears.
 
@@ -82,7 +83,8 @@ Print Assumptions c16_group_reaped.
    concrete non-vacuity check with a restart *)
 Definition c16_cfg : cfg :=
   {| cf_rtmp_enable := true; cf_rtmp_gop := 2; cf_rtmp_max := 0; cf_flv_enable := true; cf_flv_gop := 2; cf_flv_max := 0;
-     cf_ts_gop := 1; cf_ts_max := 0; cf_merge := 0; cf_record_flv := true; cf_chunk := 4096; cf_ext_at_limit := false |}.
+     cf_ts_gop := 1; cf_ts_max := 0; cf_merge := 0; cf_record_flv := true; cf_chunk := 4096; cf_ext_at_limit := false;
+     cf_rtsp_wait := true; cf_hook := true; cf_record_ts := true |}.
 Definition c16_v (b0 b1 t : N) : rmsg := {| rm_type := 9; rm_ts := 0; rm_payload := [b0; b1; 0; 0; 0; t] |}.
 Example c16_nonvacuous :
   let h1 := [EvInStart; EvJoin KPush 7; EvPublish (c16_v 23 0 1); EvPublish (c16_v 23 1 2)] in
